@@ -108,6 +108,13 @@ def case_strategy(draw):
             # the data end in a run of equal values (several measurements at the last abscissa)
             x = sorted(x) + [max(x)] * draw(st.integers(1, 3))
             kw['everyn'] = min(kw['everyn'], max(1, len(x) // 2))
+        elif draw(st.integers(0, 3)) == 0:
+            # a run of equal values just below the largest one (several measurements at the last abscissa but one): with a small everyn the
+            # highest breakpoint taken from the data is repeated and lies below the data maximum
+            xs_ = sorted(x)
+            x = xs_[:-1] + [xs_[-2]] * draw(st.integers(2, 4)) + xs_[-1:]
+            kw['everyn'] = draw(st.sampled_from([2, 2, 3, 1]))
+            kw['everyn'] = min(kw['everyn'], max(1, len(x) // 2))
     order = draw(st.sampled_from(['sorted', 'shuffled']))
     x = sorted(x) if order == 'sorted' else list(draw(st.permutations(x)))
     kw['bkspread'] = draw(st.sampled_from([1.0, 1.0, 0.5, 2.0, 1.3]))
